@@ -145,7 +145,7 @@ var sweepItems = func() []sweepItem {
 	var out []sweepItem
 	for _, ct := range ctypes {
 		for _, m := range methodNames(ct) {
-			for _, st := range []string{"empty", "three", "grown", "full", "self-arg", "panicking-key", "panicking-callback"} {
+			for _, st := range []string{"empty", "three", "grown", "full", "self-arg", "panicking-key", "panicking-callback", "negative-capacity"} {
 				out = append(out, sweepItem{ct.Name, m, st})
 			}
 		}
@@ -166,7 +166,7 @@ func runSweepItem(i uint64) (bool, error) {
 	ct := ctypeByName[it.Type]
 	self := reflect.ValueOf(ct.New())
 	switch it.State {
-	case "three", "self-arg", "panicking-key", "panicking-callback":
+	case "three", "self-arg", "panicking-key", "panicking-callback", "negative-capacity":
 		populate(self, ct, 3)
 	case "grown":
 		populate(self, ct, 200)
@@ -180,6 +180,24 @@ func runSweepItem(i uint64) (bool, error) {
 				in[i] = reflect.ValueOf(3)
 			}
 			sc.Call(in)
+		}
+	}
+	if it.State == "negative-capacity" {
+		// "no bound" is written 0 or any negative number (SetMax(-1), SetCapacity(-1)): three elements, bound -1
+		set := false
+		if sm := self.MethodByName("SetMax"); sm.IsValid() && sm.Type().NumIn() == 1 {
+			sm.Call([]reflect.Value{reflect.ValueOf(-1)})
+			set = true
+		} else if sc := self.MethodByName("SetCapacity"); sc.IsValid() {
+			in := make([]reflect.Value, sc.Type().NumIn())
+			for i := range in {
+				in[i] = reflect.ValueOf(-1)
+			}
+			sc.Call(in)
+			set = true
+		}
+		if !set {
+			return false, nil
 		}
 	}
 	m := self.MethodByName(it.Method)
@@ -272,7 +290,7 @@ var sweepDeadlockName, sweepDeadlockMode = func() (string, string) {
 }()
 
 var sweepDeadlock = pbt.RegisterSweep(pbt.Sweep{Prop: "C10", Name: sweepDeadlockName,
-	Rule: sweepDeadlockMode + "exhaustive over (type, exported method, state) for the 17 hash map/set types, the linked list and the two request queues (reflection over the method sets; states empty / 3 elements / 200 elements / bounded and full / 3 elements with the structure itself passed wherever a structure of its own type is expected / 3 elements and a key whose Hash and Equals panic / 3 elements and caller-supplied functions - Sort comparators, the queues' Failed and Overflowed callbacks with the queue at its bound - that panic): the method is invoked with generated arguments in its own goroutine on an instance nobody else touches, followed by a locking probe (Clear); a call found parked on a sync primitive inside golib in three consecutive goroutine-stack samples is a self-deadlock (no wall-clock verdict; a blocking dequeue on an empty queue is not issued); every (type, method, state) is a distinct non-trivial case",
+	Rule: sweepDeadlockMode + "exhaustive over (type, exported method, state) for the 17 hash map/set types, the linked list and the two request queues (reflection over the method sets; states empty / 3 elements / 200 elements / bounded and full / 3 elements with the structure itself passed wherever a structure of its own type is expected / 3 elements and a key whose Hash and Equals panic / 3 elements with the bound set to -1 (unbounded) / 3 elements and caller-supplied functions - Sort comparators, the queues' Failed and Overflowed callbacks with the queue at its bound - that panic): the method is invoked with generated arguments in its own goroutine on an instance nobody else touches, followed by a locking probe (Clear); a call found parked on a sync primitive inside golib in three consecutive goroutine-stack samples is a self-deadlock (no wall-clock verdict; a blocking dequeue on an empty queue is not issued); every (type, method, state) is a distinct non-trivial case",
 	N:    uint64(len(sweepItems)), Run: runSweepItem,
 	Show: func(i uint64) interface{} { return sweepItems[i] }})
 
@@ -904,6 +922,9 @@ type BlockCase struct {
 	Consumers int    `json:"consumers"`
 	N         int    `json:"n"`     // elements per producer
 	Burst     int    `json:"burst"` // producers pause after every Burst puts so that the consumers run the queue empty again
+	// Reconf: meanwhile another goroutine keeps changing the queue's capacity (a configuration reload): small, then
+	// unbounded again; a producer whose put is refused tries again. What the queue accepted is delivered all the same
+	Reconf bool `json:"reconf,omitempty"`
 }
 
 func runBlock(c BlockCase) *pbt.Result {
@@ -911,13 +932,16 @@ func runBlock(c BlockCase) *pbt.Result {
 	var put func(p, i int) bool
 	var get func() interface{}
 	var size func() int
+	var setcap func(n int)
 	switch c.Type {
 	case "RequestQueue":
 		q := queue.NewRequestQueue(0)
 		put = func(p, i int) bool { return q.Put(1 + p*c.N + i) }
 		get, size = q.Get, q.Size
+		setcap = func(n int) { q.SetCapacity(n) }
 	case "RequestDoubleQueue":
 		q := queue.NewRequestDoubleQueue(0, 0)
+		setcap = func(n int) { q.SetCapacity(n, n) }
 		put = func(p, i int) bool {
 			if (p+i)%2 == 0 {
 				return q.Put1(1 + p*c.N + i)
@@ -947,7 +971,12 @@ func runBlock(c BlockCase) *pbt.Result {
 		go func(p int) {
 			defer pwg.Done()
 			for i := 0; i < c.N; i++ {
-				if put(p, i) {
+				ok := put(p, i)
+				for tries := 0; !ok && c.Reconf && tries < 1<<22; tries++ { // refused while the capacity is small: try again
+					runtime.Gosched()
+					ok = put(p, i)
+				}
+				if ok {
 					accepted.Add(1)
 				}
 				if c.Burst > 0 && i%c.Burst == c.Burst-1 {
@@ -958,7 +987,24 @@ func runBlock(c BlockCase) *pbt.Result {
 			}
 		}(p)
 	}
+	var reconfStop atomic.Bool
+	var rwg sync.WaitGroup
+	if c.Reconf {
+		rwg.Add(1)
+		go func() {
+			defer rwg.Done()
+			for n := 0; !reconfStop.Load(); n++ {
+				setcap([]int{3, 0, 1, 0, 50, 0}[n%6])
+				for k := 0; k < 20; k++ {
+					runtime.Gosched()
+				}
+			}
+			setcap(0)
+		}()
+	}
 	pwg.Wait()
+	reconfStop.Store(true)
+	rwg.Wait()
 	if accepted.Load() != int64(total) {
 		return pbt.Fail("%s: %d of %d puts on an unbounded queue were refused", c.Type, int64(total)-accepted.Load(), total)
 	}
@@ -994,12 +1040,12 @@ func runBlock(c BlockCase) *pbt.Result {
 
 var specBlock = pbt.Register(pbt.Spec[BlockCase]{
 	Prop: "C10", Name: "blocking-get-stress",
-	Rule:  "2-6 consumer goroutines issue, between them, exactly as many blocking Get calls on an unbounded RequestQueue / RequestDoubleQueue as 1-3 producers put elements (bursts of 1-8 puts, then the producers let the queue run empty, so that several consumers are woken for fewer elements over and over); invariants sound for any schedule: every put is accepted, every blocking get returns an element (never empty-handed), every element is delivered exactly once, the queue ends empty, and all gets return once the last put is done; non-trivial = at least 2 consumers; distinct by case",
+	Rule:  "2-6 consumer goroutines issue, between them, exactly as many blocking Get calls on an unbounded RequestQueue / RequestDoubleQueue as 1-3 producers put elements (bursts of 1-8 puts, then the producers let the queue run empty, so that several consumers are woken for fewer elements over and over); in a third of the cases another goroutine keeps changing the capacity (3, unbounded, 1, unbounded, 50, ...) and refused puts are repeated; invariants sound for any schedule: every put is accepted, every blocking get returns an element (never empty-handed), every element is delivered exactly once, the queue ends empty, and all gets return once the last put is done; non-trivial = at least 2 consumers; distinct by case",
 	Quick: 60, Thorough: 3000,
 	Draw: func(t *rapid.T) BlockCase {
 		return BlockCase{Type: rapid.SampledFrom([]string{"RequestQueue", "RequestDoubleQueue", "RequestDoubleQueue"}).Draw(t, "type"),
 			Producers: rapid.IntRange(1, 3).Draw(t, "producers"), Consumers: rapid.IntRange(2, 6).Draw(t, "consumers"),
-			N: rapid.IntRange(100, pbt.Pick(1500, 6000)).Draw(t, "n"), Burst: rapid.IntRange(1, 8).Draw(t, "burst")}
+			N: rapid.IntRange(100, pbt.Pick(1500, 6000)).Draw(t, "n"), Burst: rapid.IntRange(1, 8).Draw(t, "burst"), Reconf: rapid.IntRange(0, 2).Draw(t, "reconf") == 0}
 	},
 	Run: runBlock,
 })
@@ -1827,4 +1873,102 @@ func TestRaceInstances(t *testing.T) {
 		}
 		pbt.Extra("race-detector", "method_calls_on_separate_instances:"+ct.Name, calls)
 	}
+}
+
+// ---- first operations on a fresh structure ---------------------------------------------------------------------
+// A structure that has just been constructed gets its first insertion from one goroutine while another one asks for
+// an enumeration (a reporter that starts to walk the map, a ToString for a log line). Whatever the second goroutine
+// sees, the insertion must have happened once it has returned.
+
+type FreshCase struct {
+	Type   string `json:"type"`
+	Rounds int    `json:"rounds"`
+	Other  string `json:"other"` // zero-argument method the second goroutine calls
+}
+
+func freshOthers(ct *ctype) []string {
+	self := reflect.ValueOf(ct.New())
+	var out []string
+	for _, n := range []string{"Keys", "Values", "Entries", "ToString", "KeyArray", "Size", "IsEmpty", "GetFirst", "GetLast", "GetFirstKey", "GetLastKey"} {
+		if m := self.MethodByName(n); m.IsValid() && m.Type().NumIn() == 0 {
+			out = append(out, n)
+		}
+	}
+	return out
+}
+
+func runFresh(c FreshCase) *pbt.Result {
+	ct := ctypeByName[c.Type]
+	insName := insertOp(ct)
+	for round := 0; round < c.Rounds; round++ {
+		self := reflect.ValueOf(ct.New())
+		ins := self.MethodByName(insName)
+		other := self.MethodByName(c.Other)
+		var gate atomic.Int32
+		var wg sync.WaitGroup
+		var pv atomic.Value
+		wg.Add(2)
+		go func() {
+			defer wg.Done()
+			defer func() {
+				if r := recover(); r != nil {
+					pv.Store(fmt.Sprint(r))
+				}
+			}()
+			for gate.Load() == 0 {
+			}
+			ins.Call(callArgs(ins, 7, 70, self, ct))
+		}()
+		go func() {
+			defer wg.Done()
+			defer func() { recover() }() // what the reader gets is not judged
+			for gate.Load() == 0 {
+			}
+			other.Call(nil)
+		}()
+		gate.Store(1)
+		wg.Wait()
+		if v := pv.Load(); v != nil {
+			return pbt.Fail("%s: the first %s on a fresh structure panicked while another goroutine called %s: %v", c.Type, insName, c.Other, v)
+		}
+		if size := int(self.MethodByName("Size").Call(nil)[0].Int()); size != 1 {
+			return pbt.Fail("%s (round %d): after the first %s on a fresh structure returned (another goroutine called %s meanwhile) Size()=%d", c.Type, round, insName, c.Other, size)
+		}
+		for _, probe := range []string{"ContainsKey", "Contains"} {
+			if m := self.MethodByName(probe); m.IsValid() && m.Type().NumIn() == 1 && ct.Kind != "queue" && ct.Kind != "list" {
+				if !m.Call(callArgs(m, 7, 0, self, ct))[0].Bool() {
+					return pbt.Fail("%s (round %d): the first %s on a fresh structure has returned (another goroutine called %s meanwhile), Size()=1, but %s of the inserted key is false: the insertion went into a table that was replaced", c.Type, round, insName, c.Other, probe)
+				}
+			}
+		}
+		if err := structuralAudit(self, ct); err != nil {
+			return pbt.Fail("%s (round %d, first %s racing %s on a fresh structure): %v", c.Type, round, insName, c.Other, err)
+		}
+	}
+	return &pbt.Result{NT: true, Classes: []string{"type=" + c.Type, "other=" + c.Other}}
+}
+
+var specFresh = pbt.Register(pbt.Spec[FreshCase]{
+	Prop: "C10", Name: "fresh-structure-stress",
+	Rule:  "for every collection type: 300-3000 rounds in which the first insertion into a freshly constructed instance runs against one call of a zero-argument reader (Keys / Values / Entries / ToString / KeyArray / Size / IsEmpty / first / last) from another goroutine, both released by a spin barrier; once both have returned the structure holds exactly that element: Size()=1, the key is found, structural audit passes (what the reader saw is not judged); every (type, reader) pair at least once per run; non-trivial = every case; distinct by case",
+	Quick: 40, Thorough: 2000,
+	Draw: func(t *rapid.T) FreshCase {
+		ct := ctypeByName[rapid.SampledFrom(typeNames()).Draw(t, "type")]
+		return FreshCase{Type: ct.Name, Rounds: rapid.IntRange(300, pbt.Pick(3000, 10000)).Draw(t, "rounds"), Other: rapid.SampledFrom(freshOthers(ct)).Draw(t, "other")}
+	},
+	Run: runFresh,
+})
+
+func TestFreshStructureStress(t *testing.T) {
+	shard, n := pbt.Shard()
+	k := 0
+	for _, ct := range ctypes {
+		for _, o := range freshOthers(ct) {
+			k++
+			if k%n == shard {
+				specFresh.RunCase(t, FreshCase{Type: ct.Name, Rounds: pbt.Pick(1500, 6000), Other: o})
+			}
+		}
+	}
+	specFresh.Check(t)
 }
